@@ -168,10 +168,25 @@ func selectCaseLeavesLoop(sel *ssa.Select, si int, l *Loop) bool {
 				continue
 			}
 			target := iff.Block().Succs[0]
-			return !reachesLoop(target, l)
+			if !reachesLoop(target, l) {
+				return true
+			}
 		}
 	}
-	return false
+	// the same on conditions (the case may only set a flag that is tested afterwards — `ctxDone = true` … `if ctxDone { return }`):
+	// no way round the loop is compatible with this case having been chosen
+	cs := newCondSpace(sel.Parent(), recOf(eqAtom("thisCase", isVal(idx), constIs(int64(si)))), "thisCase")
+	if cs.err != "" || !cs.Seen("thisCase") {
+		return false
+	}
+	for _, lt := range l.Latch {
+		for bi, sb := range lt.Succs {
+			if sb == l.Header && cs.Satisfiable(and(cs.EdgeCond(lt, bi), cs.Atom("thisCase"))) {
+				return false
+			}
+		}
+	}
+	return len(l.Latch) > 0
 }
 
 func resultFalseLeavesLoop(call *ssa.Call, l *Loop) bool {
